@@ -176,6 +176,35 @@ fn enum_non_ascii(_t: Tier, shard: usize, n: usize, f: &mut dyn FnMut(String) ->
     }
 }
 
+/// the string literals of the sources (a special-cased prefix or suffix has to be spelled there), alone and glued
+/// to valid and invalid neighbours
+fn enum_dict(_t: Tier, shard: usize, n: usize, f: &mut dyn FnMut(String) -> bool) {
+    let mut i = 0;
+    for raw in crate::gen::dict_strings() {
+        let Ok(s) = String::from_utf8(raw.0.clone()) else { continue };
+        for w in [
+            s.clone(),
+            format!("{}a", s),
+            format!("a{}", s),
+            format!("{}.local", s),
+            format!("a.{}", s),
+            format!("{}--a", s),
+            format!("a--{}", s),
+            format!("aa{}a", s),
+            format!("{}{}", s, s),
+            format!("{}.{}", s, s),
+            s.to_ascii_uppercase(),
+            format!("{}-", s),
+            format!("_{}", s),
+        ] {
+            i += 1;
+            if mine(i, shard, n) && !f(w) {
+                return;
+            }
+        }
+    }
+}
+
 fn ab_names() -> Vec<Vec<&'static str>> {
     let mut v: Vec<Vec<&'static str>> = vec![vec![]];
     let mut frontier: Vec<Vec<&'static str>> = vec![vec![]];
@@ -283,12 +312,13 @@ fn check_local(s: &String, case: &mut Case) -> Result<(), Fail> {
 pub fn def() -> CheckDef {
     CheckDef {
         id: "C17",
-        rule: "bounded-exhaustive: all strings of length <= 6 (7 thorough) over {a,A,1,-,_,.,\\,é}; label lengths 0..=70 alone/inside a name/with edge hyphens; names of wire length 240..=260 from several label sizes; every character U+0080..U+07FF (and samples beyond) at the first / middle / last position of a label; all 31x31 ordered pairs of names of <= 4 labels over {a,b}; 32 case variants of 'local' + near misses at every position. Non-trivial = at least one non-empty label (pairs: both non-root)",
+        rule: "bounded-exhaustive: all strings of length <= 6 (7 thorough) over {a,A,1,-,_,.,\\,é}; label lengths 0..=70 alone/inside a name/with edge hyphens; names of wire length 240..=260 from several label sizes; the string literals of the sources under test alone and glued to 12 kinds of neighbours; every character U+0080..U+07FF (and samples beyond) at the first / middle / last position of a label; all 31x31 ordered pairs of names of <= 4 labels over {a,b}; 32 case variants of 'local' + near misses at every position. Non-trivial = at least one non-empty label (pairs: both non-root)",
         assumptions: vec!["'letter' and 'digit' in the statement mean ASCII letters and digits (host name syntax)"],
         sections: vec![
             Box::new(EnumSection { name: "strings", rule: "all short strings", enumerate: enum_strings, check: check_text, exhaustive: true }),
             Box::new(EnumSection { name: "lengths", rule: "label and name length boundaries", enumerate: enum_lengths, check: check_text, exhaustive: true }),
             Box::new(EnumSection { name: "non-ascii", rule: "non-ASCII characters at every position of a label", enumerate: enum_non_ascii, check: check_text, exhaustive: true }),
+            Box::new(EnumSection { name: "dictionary", rule: "string literals of the sources, alone and glued to neighbours", enumerate: enum_dict, check: check_text, exhaustive: false }),
             Box::new(EnumSection { name: "suffix", rule: "all ordered pairs of small names", enumerate: enum_pairs, check: check_pair, exhaustive: true }),
             Box::new(EnumSection { name: "link-local", rule: "case variants and near misses of 'local'", enumerate: enum_local, check: check_local, exhaustive: true }),
         ],
